@@ -8,3 +8,6 @@ import Proofs.C16
 #print axioms C16.columns_align
 #print axioms C16.no_trailing_blanks_partial
 #print axioms C16.text_csv_same_view_partial
+#print axioms C16.builder_order
+#print axioms C16.columns_align_format
+#print axioms C16.no_trailing_blanks
